@@ -255,7 +255,8 @@ MANIFEST = {
             "(T,v) reproduce c1 (always) and c2 (root exit), |v|<1, T>0; with (c1,c2) built as "
             "findHydroBoundaries does, (T+,-v+) and (T-,-v-) are zeros of the conservation "
             "equation at the phase minima; findPlasmaProfile stores per-point results in order and "
-            "clears its success flag iff a point failed.",
+            "clears its success flag iff a point failed."
+            " deltaToTmunu, on which s1 and s2 rest, returns the boosted moment integrals for the velocity of the current call also when the same EOM object was used at other velocities before.",
     "note": "scipy minimiser/root finder are contract stubs; the no-root exit (minimum of the "
             "residual returned with the success flag left set) is a recorded known finding; "
             "bracket widening beyond 3 steps is cut.",
